@@ -102,8 +102,7 @@ Section Scan.
       + destruct (is_read dep (OFlag fl) l); [|contradiction]. destruct H as [E|[]]. inversion E. exists l. split; [left|]; reflexivity.
       + apply in_app_or in H. destruct H as [H|H]; [|auto].
         destruct (is_read dep (OFlag fl) l); [|contradiction]. destruct H as [E|[]]. inversion E. exists l. split; [left|]; reflexivity.
-    - destruct (andb (m_pre m) _); [contradiction|]. destruct (andb (m_post m) _); [contradiction|].
-      destruct (is_memstore m l).
+    - destruct (is_memstore m l).
       + destruct (is_memload m l s1); [|contradiction]. destruct H as [E|[]]. inversion E. exists l. split; [left|]; reflexivity.
       + apply in_app_or in H. destruct H as [H|H]; [|auto].
         destruct (is_memload m l s1); [|contradiction]. destruct H as [E|[]]. inversion E. exists l. split; [left|]; reflexivity.
@@ -118,7 +117,6 @@ Section Kernel.
   Lemma scan_mem_storeload fd m : forall (rest : list line) s n f, In (n, f) (scan dep fd (OMem m) rest s) -> f = FStoreLoad.
   Proof.
     induction rest as [|l more IH]; intros s n f H; [contradiction|]. cbn [scan] in H.
-    destruct (andb (m_pre m) _); [contradiction|]. destruct (andb (m_post m) _); [contradiction|].
     destruct (is_memstore m l).
     - destruct (is_memload m l _); [|contradiction]. destruct H as [E|[]]. inversion E. reflexivity.
     - apply in_app_or in H. destruct H as [H|H]; [|eapply IH; exact H].
